@@ -21,6 +21,15 @@ A8 = 'A8 toolchains: Verus compiles the extracted text with Rust 1.98.1, Kani wi
 EVAL_FUNCS = 'eval_expr, eval_or_expr, eval_and_expr, eval_eq_expr, eval_relational_expr, eval_add_expr, eval_mul_expr, eval_unary_expr, eval_union_expr, eval_path_expr, eval_filter_expr, eval_primary_expr, eval_filtered_loc_expr, eval_loc_expr, eval_step_expr, eval_axis_node_test, eval_node_test, eval_predicate, eval_func_expr'
 
 PROPS = {
+    'C10': dict(
+        verus_units=['c10_ns'],
+        level='proof',
+        trusted_base=TRUSTED_VERUS,
+        assumptions=[A2 + ' (Vec::retain with the prefix closure = keep the bindings of other prefixes in order; iter().find = first match; Option::map(to_string), to_string, String == String as equality of character sequences)', A8,
+                     'the expanded name the DOCUMENT side computes for a node (dom as_expanded_name) is an uninterpreted function of the node'],
+        not_decided='the document side of C10: nearest enclosing declaration, xmlns="", attributes not taking the default namespace, the xml prefix, inherited in-scope namespaces (XmlElement::namespaces, in_scope_namespace, find_nameapce_uri, namespace_name over the live element graph); ns_att_name in the parser; the NameTest::Namespace branch of eval_node_test',
+        explanation='caller-side prefix bindings and name-test comparison: Context::add_ns makes the prefix resolve to the new URI and leaves every other prefix alone (re-binding replaces), remove_ns unbinds exactly that prefix, get_ns_uri answers the first binding, expanded_name resolves a prefixed QName through the bindings (NotFoundNamespace when unbound) and gives an unprefixed one the default binding, equal_qname compares local part and URI and never the prefix; a lemma shows that renaming prefixes injectively in bindings and QName alike leaves every resolution unchanged',
+    ),
     'C15': dict(
         verus_units=['c16_chardata'],
         level='proof',
@@ -131,12 +140,16 @@ NOT_APPLICABLE = {
     'C03': 'totality of parse/print is a property of the recursive nom grammar, unimplemented! arms reachable only with a live document, recursion depth and running time; none is expressible as a contract on a function either verifier can load',
     'C05': 'the evaluator recurses over live dom::XmlNode graphs (Rc<RefCell>, order keys through HashMap/Weak); building a three-node document under Kani exceeds 8 min/3.5 GB and Verus has no model of the graph; the scalar leaves are decided under C09',
     'C08': 'spelling equivalence and precedence are properties of the nom expression grammar (relations between strings), outside both verifiers',
-    'C10': 'not decided: the only piece within reach (model::Context::{add_ns,remove_ns,get_ns_uri,expanded_name}) needs symbolic strings, which Kani handles only as a small bounded run (55 s / 4.5 GB for 2 prefixes, measured) and which Verus cannot read (HashMap<String,String> iteration); the document side (in-scope namespaces, xmlns="", attributes, name tests) is live-graph code. The bounded stand-in described in DESIGN §4 was not built, so nothing is claimed',
     'C12': 'the tree invariant quantifies over histories on the aliasing object graph (children vectors vs parent_id via id_map); a ghost-tree proof is a protocol-level invariant beyond this task and Kani cannot build the objects',
     'C17': 'the CLIs compose file I/O, both nom grammars, the evaluator, DOM mutation and the printer; nothing in them is a function a contract can isolate',
 }
 
 MANIFEST_TEXT = {
+    'C10': dict(
+        level_text='Proof (Verus, all binding lists, prefixes, URIs, QNames) for the expression side of C10 only: add_ns/remove_ns/get_ns_uri/expanded_name of the evaluation context implement "the first binding of the prefix, re-binding replaces", equal_qname compares (local part, namespace URI) and ignores prefixes, and prefix renaming is proved not to change any resolution. The document side (scoping of xmlns declarations in the tree) is not decided.',
+        level_note='Trusted: Verus+Z3, extractor, std shims for retain/find/to_string/string equality; three induction lemmas proved in the unit. Not decided: everything that walks the element tree.',
+        technique='contract-based deductive verification (Verus postconditions over an abstract binding list on extracted real functions, lemmas by induction)',
+        design_ref='DESIGN.md §9'),
     'C15': dict(
         level_text='Proof (Verus, all strings/offsets/counts) for the character-data items only: an insert that reports success leaves data that is lexically valid for the node kind as a whole (the joined string, not just the fragment). delete is a recorded open finding (it cannot refuse and can join "-" + "-" or "]]" + ">"). Names, PI data and attribute values are not decided.',
         level_note='Trusted as C16; the three nom-based checkers are assumed to decide the lexical productions exactly (A3, strong form).',
